@@ -46,7 +46,10 @@ def h(sym, n, ngo, auxes, symticks, end, parent, first, suspended):
             pre["x%d" % j] = 0
         plan.append(pre)
     controls += [RUN] * symticks
-    if end is not None:
+    if end == "restart":      # stop, start again, run: the outlines must be intact after an exit-all
+        controls += [STOP, START, RUN]
+        plan = plan + [None] * symticks + [{"*": 1}, {"*": 1}, None]
+    elif end is not None:
         controls.append(end)
     text, out = flostep.run(sym, prog, controls, plan=plan)
     for k, (control, rlog, flog, robs, fobs, env) in enumerate(out):
@@ -83,17 +86,18 @@ def obligations(tier):
     out = []
     if tier == "quick":
         cfgs = [(3, 1, (), 1, STOP, False), (3, 1, ("cond",), 1, None, True), (3, 1, ("cond",), 1, ABORT, False),
-                (4, 0, (), 1, STOP, False)]
+                (4, 0, (), 1, STOP, False), (3, 1, (), 1, "restart", False)]
     else:
         cfgs = [(3, 2, (), 2, STOP, False), (4, 1, (), 1, ABORT, False), (4, 2, (), 1, None, False),
                 (3, 1, ("cond",), 2, STOP, True), (4, 1, ("cond",), 1, None, True), (3, 1, ("cond",), 2, ABORT, False),
-                (3, 1, ("cond", "plain"), 1, None, True)]
+                (3, 1, ("cond", "plain"), 1, None, True), (3, 1, (), 1, "restart", False), (4, 1, (), 1, "restart", False),
+                (3, 1, ("cond",), 1, "restart", True)]
     for (n, ngo, auxes, symticks, end, suspended) in cfgs:
         covers = ["running"] + (["not-running"] if end is not None else [])
         for parent in flostep.all_forests(n):
             out.append(Ob("step/N%d-go%d-%s-%s-sym%d-%s/%s" % (
                               n, ngo, "+".join(auxes) or "noaux", "suspended" if suspended else "fresh", symticks,
-                              {None: "run", 0: "stop", 3: "abort"}[end],
+                              {None: "run", 0: "stop", 3: "abort", "restart": "restart"}[end],
                               "".join("r" if q < 0 else str(q) for q in parent)),
                           h, dict(n=n, ngo=ngo, auxes=auxes, symticks=symticks, end=end, parent=parent, first=None,
                                   suspended=suspended),
